@@ -43,8 +43,13 @@ def main():
             m = re.search(r"(?:[Pp]lace this file (?:at|in|as|under)|PLACE AT):?\s+`?([\w./\-]+)`?", head)
             c = re.search(r"(go (?:test|run) [^\n`]*)", head)
             demos.append((f, m.group(1) if m else None, c.group(1).strip() if c else None))
-        placed = [(f, p, c) for (f, p, c) in demos if p]
         cmds = [c for (f, p, c) in demos if c]
+        if cmds and not any(p for (f, p, c) in demos):
+            # no explicit target path: the package directory of the `go test … ./pkg/` command takes every demo file
+            mdir = re.search(r"\./([\w/\-]+)/?\s*$", cmds[0])
+            if mdir:
+                demos = [(f, mdir.group(1).rstrip("/") + "/", c) for (f, p, c) in demos]
+        placed = [(f, p, c) for (f, p, c) in demos if p]
         if not placed or not cmds:
             print(sid, "UNPARSEABLE demo header", [x[1:] for x in demos]); continue
         clean()
